@@ -46,15 +46,25 @@ DISTS = ['hexapolar', 'uniform', 'random', 'cross', 'ring', 'line_x', 'line_y', 
          'gaussian', 'gaussian_sym']
 
 
+SWEEP = {'hexapolar': (1, 24), 'uniform': (3, 96), 'random': (1, 512), 'cross': (1, 512), 'ring': (1, 512),
+         'line_x': (1, 512), 'line_y': (1, 512), 'positive_line_x': (1, 512), 'positive_line_y': (1, 512),
+         'gaussian': (1, 6), 'gaussian_sym': (1, 6)}
+
+
+def fixed_cases(tier):
+    # exhaustive (within the stated bounds) enumeration of the ray counts of every named distribution
+    return [dict(kind='dist-sweep', name=n, lo=lo, hi=hi) for n, (lo, hi) in SWEEP.items()]
+
+
 def gen_case(rng, tier, i):
     r = rng.random()
     if r < 0.2:
         name = DISTS[int(rng.integers(len(DISTS)))]
-        n = int(rng.integers(1, 7)) if name.startswith('gaussian') else int(rng.integers(1, 40))
+        n = int(rng.integers(1, 7)) if name.startswith('gaussian') else int(rng.integers(1, 400))
         if name == 'hexapolar':
             n = int(rng.integers(1, 15))
         if name == 'uniform':
-            n = int(rng.integers(3, 40))     # fewer grid points leave nothing inside the unit disk
+            n = int(rng.integers(3, 60))     # fewer grid points leave nothing inside the unit disk
         vx, vy = (float(rng.uniform(0, 0.6)), float(rng.uniform(0, 0.6))) if rng.random() < 0.4 else (0.0, 0.0)
         spec = None
         if rng.random() < 0.5:
@@ -91,7 +101,8 @@ def gen_case(rng, tier, i):
     tele = r > 0.9
     spec, info = L.gen_axial(rng, semi=a, nsurf=(1, 9), asphere_p=0.1, glass_p=0.15, image='any',
                              mirrors_p=(0.2 if rng.random() < 0.15 else 0.0), finite_p=(1.0 if tele else 0.5),
-                             neg_power_p=0.25, stop=str(rng.choice(['first', 'interior', 'last', 'any'])))
+                             neg_power_p=0.25, stop=str(rng.choice(['first', 'interior', 'last', 'any'])),
+                             obj_medium_p=0.3)
     for s_ in spec['surfaces']:
         if s_.get('type') == 'even_asphere' and s_.get('coeffs'):
             s_['coeffs'][0] = 0.0       # the r^2 term belongs to C04 (finding asphere-r2-term); not re-litigated here
@@ -111,6 +122,12 @@ def gen_case(rng, tier, i):
             f[1], f[2] = round(float(rng.uniform(0, 0.5)), 4), round(float(rng.uniform(0, 0.5)), 4)
         vig = True
         classes.append('vignetting-factors')
+    if not tele and not vig and rng.random() < 0.12:
+        # field list dominated by a negative field: the maximum field is the largest |field|
+        fm = max(f[0] for f in spec['fields'])
+        if fm > 0:
+            spec['fields'] = [[-fm, 0.0, 0.0], [0.0, 0.0, 0.0], [round(0.5 * fm, 6), 0.0, 0.0]]
+            classes.append('negative-dominant-fields')
     n = 16
     rr = np.sqrt(rng.uniform(0, 1, n)); th = rng.uniform(0, 2 * np.pi, n)
     rr[:4] = 1.0
@@ -193,7 +210,32 @@ def check_reject(case, rec):
               msg=f"combination {case['cell']} was traced instead of being rejected")
 
 
+def check_sweep(case, rec):
+    from optiland import distribution as D
+    name = case['name']
+    rec.cls(f'dist-sweep-{name}')
+    bad_n, bad_r = [], []
+    for n in range(case['lo'], case['hi'] + 1):
+        d = D.GaussianQuadrature(is_symmetric=(name == 'gaussian_sym')) if name.startswith('gaussian') \
+            else D.create_distribution(name)
+        d.generate_points(n)
+        x, y = np.asarray(d.x, float), np.asarray(d.y, float)
+        if len(x) != expected_count(name, n) or len(y) != len(x):
+            bad_n.append((n, len(x), expected_count(name, n)))
+        if len(x) and np.max(x * x + y * y) > 1 + 1e-12:
+            bad_r.append(n)
+    m = case['hi'] - case['lo'] + 1
+    rec.check('distribution-count', not bad_n, n=m, key=f'distribution-count:{name}',
+              msg=f'{name}: (count requested, delivered, documented) {bad_n[:5]}')
+    rec.check('distribution-in-unit-disk', not bad_r, n=m, key=f'distribution-in-unit-disk:{name}',
+              msg=f'{name}: points outside the unit pupil for counts {bad_r[:5]}')
+    rec.event('distribution_counts_enumerated', m)
+    rec.nontrivial_case()
+
+
 def check_case(case, rec):
+    if case['kind'] == 'dist-sweep':
+        return check_sweep(case, rec)
     if case['kind'] == 'dist':
         return check_dist(case, rec)
     if case['kind'] == 'reject':
@@ -226,7 +268,7 @@ def check_case(case, rec):
     P = L.psys(spec)
     if float(abs(P.power())) > 0 and sum(1 for s in spec['surfaces'][:-1] if s.get('radius', 'inf') != 'inf') >= 2:
         rec.nontrivial_case()
-    fmax = max(f[0] for f in spec['fields'])
+    fmax = max(abs(f[0]) for f in spec['fields'])      # the maximum field is the largest |field|
     zs = L.vertex_positions(spec)
     rec.check('unit-intensity', bool(np.all(I0 == 1.0)), msg='launched rays do not carry unit intensity')
     rec.check('zero-path', bool(np.all(O0 == 0.0)), msg='launched rays have non-zero accumulated path')
